@@ -257,7 +257,8 @@ class Parser:
     def p_comment(self, p: P) -> None:
         comment = p[1]
         self.push_comment(comment)
-        self.set_last_newline_pos(p.lexpos(2))
+        if len(p) > 2:  # a comment on the last line may end the file without a newline
+            self.set_last_newline_pos(p.lexpos(2))
 
     @override_docstring(r_newline)
     def p_newline(self, p: P) -> None:
